@@ -96,6 +96,17 @@ pub fn syntactic_family(tier: Tier) -> Vec<Item> {
             };
         }
         push_stmts(&mut out, "stmt@else-chains", vec![s.clone()], Placement::MainLast);
+        // the same chain with differently shaped conditions and literal kinds per level
+        let mut v = RStmt::Assign(vname("i"), RExpr::Int(Lit::Chr('a')));
+        for k in 0..depth {
+            let c = match k % 3 {
+                0 => bin(Op::Lst, evar("i"), RExpr::Int(Lit::Hex("1F".into()))),
+                1 => bin(Op::Gre, RExpr::Paren(Arc::new(eint(1))), RExpr::Var(idx(vname("a"), evar("i")))),
+                _ => bin(Op::Neq, RExpr::Neg(Arc::new(evar("j"))), bin(Op::Mul, eint(2), evar("i"))),
+            };
+            v = RStmt::If(c, Arc::new(RStmt::Call("printi".into(), vec![RExpr::Int(Lit::Chr('x'))])), Some(Arc::new(v)));
+        }
+        push_stmts(&mut out, "stmt@else-chains", vec![v], Placement::MainMiddle);
         let w = RStmt::While(eint(1), Arc::new(RStmt::Block(vec![s.clone(), s])));
         push_stmts(&mut out, "stmt@else-chains", vec![w], Placement::MainLast);
     }
@@ -157,6 +168,12 @@ fn rich_main_body() -> Vec<RStmt> {
         ),
         RStmt::Call("printi".into(), vec![RExpr::Var(idx(vname("a"), eint(1)))]),
         RStmt::Call("readi".into(), vec![evar("j")]),
+        // several parenthesised operands in a condition and in an argument
+        RStmt::If(
+            bin(Op::Lst, RExpr::Paren(Arc::new(bin(Op::Add, evar("i"), eint(1)))), RExpr::Paren(Arc::new(bin(Op::Mul, evar("j"), eint(2))))),
+            Arc::new(RStmt::Call("printi".into(), vec![bin(Op::Add, RExpr::Paren(Arc::new(evar("i"))), RExpr::Paren(Arc::new(evar("j"))))])),
+            None,
+        ),
     ]
 }
 
@@ -170,10 +187,18 @@ fn scenario_decls(shadow: bool, alias: bool) -> Vec<RDecl> {
     if alias {
         d.push(RDecl::Type { name: "B".into(), ty: tname("A") });
     }
-    d.push(proc_q());
+    // q calls itself (recursion) when nothing shadows it
+    let mut q = proc_q();
+    if let RDecl::Proc { body, .. } = &mut q {
+        body.push(RStmt::If(bin(Op::Lst, evar("x"), eint(0)), Arc::new(RStmt::Call("q".into(), vec![evar("x"), evar("y"), evar("z")])), None));
+    }
+    d.push(q);
     let mut r_vars = vec![RVarDecl { name: "i".into(), ty: tname("int") }];
     let mut r_body = vec![RStmt::Assign(vname("i"), RExpr::Var(idx(vname("a"), eint(0))))];
     if shadow {
+        // a local named like its own procedure, and one named like another procedure
+        r_vars.push(RVarDecl { name: "r".into(), ty: tname("int") });
+        r_body.push(RStmt::Assign(vname("r"), evar("i")));
         r_vars.push(RVarDecl { name: "q".into(), ty: tname("int") });
         r_vars.push(RVarDecl { name: "v".into(), ty: arr(2, tname("int")) });
         r_body.push(RStmt::Assign(vname("q"), bin(Op::Add, evar("i"), RExpr::Var(idx(vname("v"), evar("q"))))));
